@@ -84,11 +84,12 @@ def decide(ctx, name, paths, goal, pre=(), replayer=None, expect_term=None):
 # ---------------------------------------------------------------- native helpers
 def helper(ctx):
     """small native driver for conversions that need C++ objects (mpz_class, std::string); built once per build dir"""
-    exe = os.path.join(ctx.bdir, 'conv_helper')
+    exe = os.path.join(ctx.bdir, 'conv_helper2')
     if not os.path.exists(exe):
         src = os.path.join(ctx.bdir, 'conv_helper.cpp')
         open(src, 'w').write(r'''
 #include "goldilocks_base_field.hpp"
+#include "goldilocks_cubic_extension.hpp"
 #include <iostream>
 #include <cstring>
 int main(int argc, char** argv) {
@@ -97,12 +98,13 @@ int main(int argc, char** argv) {
     if (k == "fromString") { Goldilocks::Element e; Goldilocks::fromString(e, std::string(argv[2]), atoi(argv[3])); std::cout << e.fe << std::endl; }
     else if (k == "fromScalar") { mpz_class z(argv[2], atoi(argv[3])); Goldilocks::Element e; Goldilocks::fromScalar(e, z); std::cout << e.fe << std::endl; }
     else if (k == "toString") { Goldilocks::Element e; e.fe = strtoull(argv[2], 0, 10); std::cout << Goldilocks::toString(e, atoi(argv[3])) << std::endl; }
+    else if (k == "mulScalar3") { Goldilocks3::Element a, r; for (int i = 0; i < 3; i++) a[i].fe = strtoull(argv[2 + i], 0, 10); std::string b(argv[5]); Goldilocks3::mulScalar(r, a, b); std::cout << r[0].fe << " " << r[1].fe << " " << r[2].fe << std::endl; }
     else if (k == "toS64") { Goldilocks::Element e; e.fe = strtoull(argv[2], 0, 10); std::cout << Goldilocks::toS64(e) << std::endl; }
     else if (k == "toS32") { Goldilocks::Element e; e.fe = strtoull(argv[2], 0, 10); int32_t r = 0; bool ok = Goldilocks::toS32(r, e); std::cout << (ok ? 1 : 0) << " " << r << std::endl; }
   } catch (std::exception& ex) { std::cout << "EXC " << ex.what() << std::endl; }
   return 0; }
 ''')
-        subprocess.run(['g++', '-std=c++17', '-O2', '-mavx2', '-fopenmp', '-w', '-I' + os.path.join(os.environ.get('GV_REPO', '/repo'), 'src'), src, os.path.join(os.environ.get('GV_REPO', '/repo'), 'src', 'goldilocks_base_field.cpp'), '-lgmp', '-o', exe + '.tmp%d' % os.getpid()], check=True, stdout=subprocess.PIPE, stderr=subprocess.PIPE)
+        subprocess.run(['g++', '-std=c++17', '-O2', '-mavx2', '-fopenmp', '-w', '-I' + os.path.join(os.environ.get('GV_REPO', '/repo'), 'src'), src, os.path.join(os.environ.get('GV_REPO', '/repo'), 'src', 'goldilocks_base_field.cpp'), os.path.join(os.environ.get('GV_REPO', '/repo'), 'src', 'goldilocks_cubic_extension.cpp'), '-lgmp', '-o', exe + '.tmp%d' % os.getpid()], check=True, stdout=subprocess.PIPE, stderr=subprocess.PIPE)
         os.replace(exe + '.tmp%d' % os.getpid(), exe)
     return exe
 def hrun(ctx, *args):
